@@ -6,6 +6,8 @@
 #include <Spectra/SymEigsSolver.h>
 #include <Spectra/GenEigsSolver.h>
 #include <Spectra/SymGEigsShiftSolver.h>
+#include <Spectra/SymGEigsSolver.h>
+#include <Spectra/MatOp/DenseCholesky.h>
 #include <Spectra/DavidsonSymEigsSolver.h>
 #include <Spectra/MatOp/DenseSymMatProd.h>
 #include <Spectra/MatOp/DenseGenMatProd.h>
@@ -31,6 +33,32 @@ int main() {
       if (got != want && !bad++) printf("DavidsonSymEigsSolver n=%d nev=%d: threw=%d expected=%d\n", n, nev, got, want);
     }
   }
+  // generalized solvers hand their operator to the base class as an rvalue (second HermEigsBase constructor)
+  for (int n = 2; n <= 7; n++) { Eigen::MatrixXd M = Eigen::MatrixXd::Random(n, n); Eigen::MatrixXd A = M + M.transpose(); Eigen::MatrixXd B = M * M.transpose() + Eigen::MatrixXd::Identity(n, n);
+    DenseSymMatProd<double> aop(A); DenseCholesky<double> bop(B);
+    for (int nev = -2; nev <= n + 3; nev++) for (int ncv = -2; ncv <= n + 3; ncv++) {
+      int want = !(1 <= nev && nev <= n - 1 && nev < ncv && ncv <= n);
+      int got = throws_ia([&] { SymGEigsSolver<DenseSymMatProd<double>, DenseCholesky<double>, GEigsMode::Cholesky> e(aop, bop, nev, ncv); });
+      if (got != want && !bad++) printf("SymGEigsSolver<Cholesky> n=%d nev=%d ncv=%d: threw=%d expected=%d\n", n, nev, ncv, got, want);
+      using OpT = SymShiftInvert<double, Eigen::Dense, Eigen::Dense>; OpT sop(A, B); DenseSymMatProd<double> Bp(B);
+      got = throws_ia([&] { SymGEigsShiftSolver<OpT, DenseSymMatProd<double>, GEigsMode::ShiftInvert> e(sop, Bp, nev, ncv, 0.3); });
+      if (got != want && !bad++) printf("SymGEigsShiftSolver<ShiftInvert> n=%d nev=%d ncv=%d: threw=%d expected=%d\n", n, nev, ncv, got, want);
+    } }
+  // every rule as sorting / selection argument for nev = 1, 2, 3
+  { const int n = 9; Eigen::MatrixXd M = Eigen::MatrixXd::Random(n, n); Eigen::MatrixXd A = M + M.transpose(); DenseSymMatProd<double> sop(A); DenseGenMatProd<double> gop(M);
+    const SortRule R[9] = {SortRule::LargestMagn, SortRule::LargestReal, SortRule::LargestImag, SortRule::LargestAlge, SortRule::SmallestMagn, SortRule::SmallestReal, SortRule::SmallestImag, SortRule::SmallestAlge, SortRule::BothEnds};
+    for (int nev = 1; nev <= 3; nev++) for (int b = 0; b < 9; b++) {
+      bool sort_ok = (b == 0 || b == 3 || b == 4 || b == 7), gt = (b == 0 || b == 1 || b == 2 || b == 4 || b == 5 || b == 6);
+      int got = throws_ia([&] { SymEigsSolver<DenseSymMatProd<double>> e(sop, nev, 6); e.init(); e.compute(SortRule::LargestAlge, 50, 1e-8, R[b]); });
+      if (got != !sort_ok && !bad++) printf("SymEigsSolver nev=%d sorting=%d: threw=%d expected=%d\n", nev, b, got, !sort_ok);
+      got = throws_ia([&] { GenEigsSolver<DenseGenMatProd<double>> e(gop, nev, 7); e.init(); e.compute(SortRule::LargestMagn, 50, 1e-8, R[b]); });
+      if (got != !gt && !bad++) printf("GenEigsSolver nev=%d sorting=%d: threw=%d expected=%d\n", nev, b, got, !gt);
+      bool sel_ok = (b == 0 || b == 3 || b == 4 || b == 7 || b == 8);
+      got = throws_ia([&] { SymEigsSolver<DenseSymMatProd<double>> e(sop, nev, 6); e.init(); e.compute(R[b], 50, 1e-8); });
+      if (got != !sel_ok && !bad++) printf("SymEigsSolver nev=%d selection=%d: threw=%d expected=%d\n", nev, b, got, !sel_ok);
+      got = throws_ia([&] { GenEigsSolver<DenseGenMatProd<double>> e(gop, nev, 7); e.init(); e.compute(R[b], 50, 1e-8); });
+      if (got != !gt && !bad++) printf("GenEigsSolver nev=%d selection=%d: threw=%d expected=%d\n", nev, b, got, !gt);
+    } }
   { const int n = 8; Eigen::MatrixXd M = Eigen::MatrixXd::Random(n, n); Eigen::MatrixXd A = M + M.transpose(); DenseSymMatProd<double> sop(A); DenseGenMatProd<double> gop(M);
     const SortRule R[9] = {SortRule::LargestMagn, SortRule::LargestReal, SortRule::LargestImag, SortRule::LargestAlge, SortRule::SmallestMagn, SortRule::SmallestReal, SortRule::SmallestImag, SortRule::SmallestAlge, SortRule::BothEnds};
     for (int a = 0; a < 9; a++) for (int b = 0; b < 9; b++) {
